@@ -338,16 +338,10 @@ private:
      */
     payload_t make_payload(uint16_t frame_number, const codec_frame_t& payload)
     {
-        std::array<uint8_t, 20> data;   // FN, Audio, CRC = 2 + 16 + 2;
+        std::array<uint8_t, 18> data;   // FN, Audio = 2 + 16;
         data[0] = uint8_t((frame_number >> 8) & 0xFF);
         data[1] = uint8_t(frame_number & 0xFF);
         std::copy(payload.begin(), payload.end(), data.begin() + 2);
-
-        crc_.reset();
-        for (size_t i = 0; i != 18; ++i) crc_(data[i]);
-        auto checksum = crc_.get_bytes();
-        data[18] = checksum[0];
-        data[19] = checksum[1];
 
         auto encoded = conv_encode(data);
 
